@@ -333,9 +333,9 @@ def so3_cell(method, res):
 
 
 # covering radius <= COVER_C[method] * so3_cell(method, res); measured on the unchanged tree
-# (max over groups / strata / resolutions 12, 8, 6, 5): cubochoric 1.23, haar_euler 0.66
-# (outside the Phi = pi hole), quaternion 0.93
-COVER_C = {"cubochoric": 1.6, "quaternion": 1.2, "haar_euler": 0.85}
+# (max over groups / strata / resolutions 12, 8, 6, 5): cubochoric 1.34, haar_euler 0.57
+# (outside the Phi = pi hole, where it is 1.02), quaternion 1.10
+COVER_C = {"cubochoric": 1.6, "quaternion": 1.4, "haar_euler": 0.85}
 ORES = [12.0, 8.0] if TIER == "quick" else [12.0, 8.0, 6.0, 5.0]
 NPROBE = 1600 if TIER == "quick" else 4000
 probes = so3_probes(NPROBE)
